@@ -375,7 +375,7 @@ func c13r2(r *R) {
 	} {
 		o2.Check(hasGuard(gs, w), "a handler can be scheduled without the check %s having passed; guards %v", w, gs)
 	}
-	o2.Check(hasGuardContaining(gs, "-", "newWriterAndRequest(") , "a handler can be scheduled although building the request failed; guards %v", gs)
+	o2.Check(hasGuardContaining(gs, "-", "newWriterAndRequest("), "a handler can be scheduled although building the request failed; guards %v", gs)
 	// arguments: the stream id of this frame, the writer/request just built, the selected handler
 	a := callOf(sh[0]).Args
 	o2.Check(c.Expr(a[1]) == id, "scheduleHandler gets stream id %s", c.Expr(a[1]))
